@@ -17,6 +17,7 @@ EXPLANATION = (
 EXPLANATION_ADDED = "R4 also decides: local EOF -> Finish is reachable without a credit take, every credit take builds a Push, mux->local consumes what poll_write reported; (R5) every consume is counted and every count stored in a direction's state derives from the previous state's count; (R6) in the joint poll both `?` dominate every Pending exit."
 EXPLANATION_ADDED2 = ' (R7) both directions start in the constant Transferring(0).'
 EXPLANATION = EXPLANATION + " Added while testing against seeded changes: " + EXPLANATION_ADDED + EXPLANATION_ADDED2
+EXPLANATION = EXPLANATION + ' Round 10: (R8) no read of one end waits for a flush of that same end; (R9) when the stream has nothing more to relay the bridge goes idle only after poll_flush of the local side (a dirty-flag shortcut is accepted only if the flag is cleared after a completed flush and set after every write).'
 ASSUMPTIONS = ["AsyncBufRead/AsyncWrite implementations of the local side honour the tokio contracts "
                "(a Pending return has registered the waker)"]
 NOT_DECIDED = "scripts of partial readiness and byte-exact relaying at run time"
